@@ -1,19 +1,22 @@
 #!/bin/bash
 # tools/run_seeded.sh [--tier quick|thorough] [ids...] — apply each seeded change to /repo, run the check of its property,
 # record the verdict in seeded/<id>/result-<tier>.json, undo the change.  Serial: /repo is shared.
-cd /verif
+# With VERIF_RUN_ROOT=<copy of /verif> and J1939_REPO=<scratch worktree of /repo> the same loop runs on a scratch copy of the
+# machinery against a scratch worktree (several such runs side by side); the verdicts are still recorded under /verif/seeded.
+root=${VERIF_RUN_ROOT:-/verif}; repo=${J1939_REPO:-/repo}
+cd $root
 tier=quick
 if [ "$1" = "--tier" ]; then tier=$2; shift 2; fi
-ids=${@:-$(ls seeded)}
+ids=${@:-$(ls /verif/seeded)}
 for id in $ids; do
-  d=seeded/$id; prop=${id%%-*}
+  d=/verif/seeded/$id; prop=${id%%-*}
   [ -f $d/patch.diff ] || continue
-  if [ -n "$(git -C /repo status --porcelain)" ]; then echo "/repo not clean"; exit 2; fi
-  git -C /repo apply /verif/$d/patch.diff || { echo "$id apply-failed"; continue; }
+  if [ -n "$(git -C $repo status --porcelain)" ]; then echo "$repo not clean"; exit 2; fi
+  git -C $repo apply $d/patch.diff || { echo "$id apply-failed"; continue; }
   start=$(date +%s)
   out=$(./check $prop --tier $tier 2>&1); rc=$?
   end=$(date +%s)
-  git -C /repo checkout -- .
+  git -C $repo checkout -- .
   v=$(echo "$out" | grep -c '^VIOLATION')
   first=$(echo "$out" | grep '^VIOLATION' | head -1)
   nofail=$(echo "$out" | grep '^VIOLATION' | grep -c 'no-failing-input-found')
@@ -26,8 +29,10 @@ for id in $ids; do
   /venv/bin/python - "$d/result-$tier.json" "$id" "$prop" "$verdict" "$rc" "$v" "$nofail" "$((end-start))" "$what" "$summary" <<'P'
 import json,sys
 f,id_,prop,verdict,rc,v,nofail,secs,what,summary=sys.argv[1:]
-json.dump(dict(seeded=id_,check=prop,verdict=verdict,exit=int(rc),violation_lines=int(v),no_failing_input_found=int(nofail),seconds=int(secs),first_violation=what,summary=summary),open(f,'w'),indent=1)
+import os
+json.dump(dict(seeded=id_,check=prop,verdict=verdict,exit=int(rc),violation_lines=int(v),no_failing_input_found=int(nofail),seconds=int(secs),first_violation=what,summary=summary,
+               run_on=os.environ.get('J1939_REPO','/repo'),machinery=os.environ.get('VERIF_RUN_ROOT','/verif')),open(f,'w'),indent=1)
 P
 done
 # leave the generated model in step with the unchanged tree
-./check setup >/dev/null 2>&1
+[ "$repo" = /repo ] && ./check setup >/dev/null 2>&1
